@@ -137,6 +137,39 @@ fn eval_inner(line: &str) -> String {
                 && Iterator::fold(s.iter(), 0usize, |a, k| a * 7 + kidx(k)) == members.iter().fold(0usize, |a, k| a * 7 + k)
                 && s.iter().rev().map(kidx).collect::<Vec<_>>() == members.iter().rev().copied().collect::<Vec<_>>();
             ok &= kind_iter_extremes(s.iter()) == (members.iter().copied().min(), members.iter().copied().max());
+            // backward through internal iteration (rfold and what is built on it), whole and after one
+            // item was taken from either end
+            let backward = |it: json_syntax::kind::KindSetIter, want: &[usize]| -> bool {
+                let rev: Vec<usize> = want.iter().rev().copied().collect();
+                let f = |a: usize, k: usize| a * 7 + k + 1;
+                let mut seen = vec![];
+                it.clone().rev().for_each(|k| seen.push(kidx(k)));
+                let mut seen2 = vec![];
+                let _ = it.clone().try_rfold((), |(), k| {
+                    seen2.push(kidx(k));
+                    Some(())
+                });
+                DoubleEndedIterator::rfold(it.clone(), 0usize, |a, k| f(a, kidx(k))) == rev.iter().fold(0usize, |a, k| f(a, *k))
+                    && it.clone().rev().fold(0usize, |a, k| f(a, kidx(k))) == rev.iter().fold(0usize, |a, k| f(a, *k))
+                    && it.clone().rev().last().map(kidx) == want.first().copied()
+                    && it.clone().rev().map(kidx).max() == want.iter().copied().max()
+                    && it.clone().rev().count() == want.len()
+                    && it.clone().rev().nth(1).map(kidx) == rev.get(1).copied()
+                    && it.clone().rfind(|k| kidx(*k) % 2 == 0).map(kidx) == rev.iter().copied().find(|k| k % 2 == 0)
+                    && it.clone().rev().map(|k| kidx(k).to_string()).collect::<String>() == rev.iter().map(|k| k.to_string()).collect::<String>()
+                    && it.clone().rev().rev().fold(0usize, |a, k| f(a, kidx(k))) == want.iter().fold(0usize, |a, k| f(a, *k))
+                    && it.clone().fold(0usize, |a, k| f(a, kidx(k))) == want.iter().fold(0usize, |a, k| f(a, *k))
+                    && seen == rev
+                    && seen2 == rev
+            };
+            ok &= backward(s.iter(), &members);
+            if members.len() >= 2 {
+                let mut it = s.iter();
+                it.next();
+                ok &= backward(it.clone(), &members[1..]);
+                it.next_back();
+                ok &= backward(it, &members[1..members.len() - 1]);
+            }
             format!("{}{}", kinds_str(s.iter()), if ok { "" } else { " ITERATOR-STYLES-DISAGREE" })
         }
         ["intoiter", a] => kinds_str(set(a).into_iter()),
